@@ -1,3 +1,328 @@
-(* placeholder while the correspondence is being validated *)
-From Coq Require Import List Bool ZArith String.
-From PE Require Import Base.QUtil Model.Pipeline Proofs.PipelineProofs.
+(* End-to-end composition for ONE frame of the 3D detection pipeline: C01 -> C10 -> C03 -> C04 (-> C08).
+   Model: Model/Pipeline.v  (matcher [Model/Matching.v] -> DynamicObjectWithPerceptionResult per index pair
+          -> evaluate_frame [Model/Filter.v, Model/PassFail.v] -> divide_objects / Map / Ap [Model/AP.v]);
+   proofs: Proofs/PipelineProofs.v; tie to /repo: harness/props/pipeline_corr.py (the real
+   PerceptionEvaluationManager.add_frame_result, every observable reproduced from pre-matching facts).
+
+   What this file removes: the two hypotheses of Props/C03.v and Props/C04.v that were "another property's theorem".
+     C03  [wf_frame rs gts] (matching one-to-one, its ground truths are the frame's)  -- now PROVED for the results
+          the matcher model produces, for all facts tables, policies, modes (C03_pipeline_wf_frame);
+     C04  [count_tp ks <= n] (no more TPs than ground truths)                         -- now PROVED for the ranking every
+          Ap of the frame sees, n = number of critical ground truths of that label (C04_pipeline_tp_le_gt).
+
+   Hypotheses that remain are on the INPUTS only ([pipeline_hyps], Proofs/PipelineProofs.v):
+     ph_scene   [scene_hyps F ests gts]: the objects handed to the matcher are identified by their index
+                ([ids_ok]), there are as many as the facts tables describe, and the ground truths' __eq__ keys
+                (time, label, position, orientation) are pairwise distinct  (C03_gt_key_collision_example shows why);
+     ph_crit    [wf_cfg crit]   per-label lists of the critical filter as long as its non-empty target list;
+     ph_pf      [pf_ok pf]      pass/fail threshold list as long as its target list;
+     ph_points  [obj_ok crit true g]  a ground truth has a point count if a point bound is configured.
+   Nothing is assumed about the facts tables themselves (scores, label compatibility, frame ids). *)
+From Coq Require Import List Bool ZArith String Permutation.
+From PE Require Import Base.QUtil Model.Matching Model.Filter Model.PassFail Model.Pipeline.
+From PE Require Import Proofs.FilterProofs Proofs.PassFailProofs Proofs.PipelineProofs.
+From PE Require Model.AP Proofs.APKinds Proofs.APModel.
+Import ListNotations.
+Open Scope Q_scope.
+
+(* ================================================================================================ *)
+(* C03 without the matching hypothesis                                                               *)
+(* ================================================================================================ *)
+
+(* 1. C01 discharges C03's hypothesis.  For ALL facts tables F (any size, any scores, any label flags), all
+      matching modes, label policies and both task kinds: the matcher model's output turns into object results
+      without an index error, they are exactly the matcher's index pairs, and they satisfy [wf_frame]:
+      estimates pairwise distinct, ground truths pairwise distinct, every matched ground truth is one of the
+      frame's, identities and __eq__ keys of the frame's ground truths distinct. *)
+Theorem C03_pipeline_wf_frame : forall md p fpv F T ests gts,
+  ids_ok ests = true -> ids_ok gts = true ->
+  List.length ests = List.length (f_est_frame F) -> List.length gts = List.length (f_gt_frame F) ->
+  NoDup (map o_key gts) ->
+  exists rs, matched_results md p fpv F T ests gts = Ok rs /\
+             map res_pair rs = get_object_results md p fpv F /\
+             wf_frame rs gts.
+Proof. exact matched_results_wf_explicit. Qed.
+Print Assumptions C03_pipeline_wf_frame.
+
+(* ... hence the complete hypothesis record of Props/C03.v holds for the matcher's results *)
+Theorem C03_pipeline_frame_hyps : forall md p fpv F T ests gts crit pf rs,
+  pipeline_hyps F ests gts crit pf -> matched_results md p fpv F T ests gts = Ok rs -> frame_hyps crit pf rs gts.
+Proof. exact pipeline_frame_hyps. Qed.
+Print Assumptions C03_pipeline_frame_hyps.
+
+(* 2. every clause of C03_statement for [frame_pipeline] = matcher -> evaluate_frame, with hypotheses on the
+      inputs only: no hypothesis about the matching *)
+Definition C03_pipeline_statement : Prop :=
+  forall md p fpv F T ests gts crit pf Fr,
+    pipeline_hyps F ests gts crit pf -> frame_pipeline md p fpv F T ests gts crit pf = Ok Fr ->
+    (* results = TP + FP *)
+    Permutation (map est_id (f_tp Fr) ++ map est_id (f_fp Fr)) (map est_id (f_results Fr)) /\
+    (* every critical GT exactly once *)
+    (forall g, In g (f_gts Fr) ->
+       (lbl_is_fp (o_label g) = false ->
+          (cnt (o_id g) (gt_ids (f_tp Fr)) + cnt (o_id g) (ids (f_fn Fr)) = 1)%nat) /\
+       (lbl_is_fp (o_label g) = true ->
+          (cnt (o_id g) (ids (f_tn Fr)) + cnt (o_id g) (gt_ids (f_fp Fr)) = 1)%nat)) /\
+    (* ordinary critical GT = TP + FN *)
+    List.length (filter ordinary (f_gts Fr)) = (List.length (f_tp Fr) + List.length (f_fn Fr))%nat /\
+    (* TP soundness *)
+    (forall r, In r (f_tp Fr) ->
+       exists g, r_gt r = Some g /\ lbl_is_fp (o_label g) = false /\ r_label_ok r = true /\
+                 forall t, thr_of pf (o_label g) = Some t -> exists v, r_score r = Some v /\ v < t) /\
+    (* nothing outside the critical region is counted *)
+    (forall r, In r (f_tp Fr ++ f_fp Fr) -> kept (est_side crit) true false (r_est r) = true) /\
+    (forall g, In g (f_tn Fr ++ f_fn Fr) \/ (exists r, In r (f_tp Fr ++ f_fp Fr) /\ r_gt r = Some g) ->
+       In g gts /\ kept crit true true g = true).
+
+Theorem C03_pipeline_all_clauses : C03_pipeline_statement.
+Proof. exact pipeline_all_clauses. Qed.
+Print Assumptions C03_pipeline_all_clauses.
+
+(* the pipeline does not raise on well-formed inputs: no clause above is vacuous because of an error branch *)
+Theorem C03_pipeline_total : forall md p fpv F T ests gts crit pf,
+  pipeline_hyps F ests gts crit pf -> exists Fr, frame_pipeline md p fpv F T ests gts crit pf = Ok Fr.
+Proof. exact pipeline_total. Qed.
+Print Assumptions C03_pipeline_total.
+
+(* outside FP validation every estimate handed to the matcher is the estimate of exactly one object result
+   (C01_complete transported to the results the frame receives) *)
+Theorem C03_pipeline_estimates_complete : forall md p F T ests gts rs,
+  scene_hyps F ests gts -> matched_results md p false F T ests gts = Ok rs ->
+  Permutation (map est_id rs) (map o_id ests).
+Proof. exact matched_results_complete. Qed.
+Print Assumptions C03_pipeline_estimates_complete.
+
+(* ================================================================================================ *)
+(* C04 without the counting hypothesis                                                               *)
+(* ================================================================================================ *)
+
+(* 3. For EVERY label L and threshold t (target or not), every value / weight table: the ranking that Ap(L, t)
+      sees for the frame's surviving results ([label_ranking]: bucket of L by divide_objects with the critical
+      targets [cts], stable descending sort by confidence, TP / FP / ignored by get_label_threshold on the GROUND
+      TRUTH's label and is_result_correct) has at most as many TPs as there are critical ground truths labelled L
+      (= num_ground_truth_dict[L] of divide_objects_to_num). *)
+Theorem C04_pipeline_tp_le_gt : forall md p fpv F T ests gts crit pf Fr v w cts L t,
+  pipeline_hyps F ests gts crit pf -> frame_pipeline md p fpv F T ests gts crit pf = Ok Fr ->
+  (APKinds.count_tp (label_ranking v w cts L t (f_results Fr)) <= num_gt_label L (f_gts Fr))%nat.
+Proof. exact pipeline_tp_le_gt. Qed.
+Print Assumptions C04_pipeline_tp_le_gt.
+
+(* the AP the composed model computes for label L IS C04's [ap_of_kinds] on that ranking with that count:
+   undefined (inf) iff the bucket is empty *)
+Theorem C04_pipeline_ap_is_area_of_ranking : forall cts gts' v w rs' L t,
+  AP.ap (one_ap cts (map o_label gts') (map (lres_of v w) rs') (L, t)) =
+  match AP.label_results cts L t (map (lres_of v w) rs') with
+  | [] => None
+  | _ => Some (AP.ap_of_kinds (num_gt_label L gts') (label_ranking v w cts L t rs'))
+  end.
+Proof. exact one_ap_value. Qed.
+Print Assumptions C04_pipeline_ap_is_area_of_ranking.
+
+(* one Ap / Aph of the frame (any matching-value table v, any TP weights w in [0,1]): in [0,1], NO count hypothesis *)
+Theorem C04_pipeline_one_ap_in_unit_interval : forall md p fpv F T ests gts crit pf Fr v w cts L t a,
+  pipeline_hyps F ests gts crit pf -> frame_pipeline md p fpv F T ests gts crit pf = Ok Fr ->
+  (forall e g, 0 <= w e g <= 1) ->
+  AP.ap (one_ap cts (map o_label (f_gts Fr)) (map (lres_of v w) (f_results Fr)) (L, t)) = Some a ->
+  0 <= a <= 1.
+Proof. exact pipeline_one_ap_in_unit. Qed.
+Print Assumptions C04_pipeline_one_ap_in_unit_interval.
+
+(* the whole metrics side of add_frame_result: for every centre-distance and plane-distance Map of the frame,
+   every per-label AP, every per-label APH (heading weights in [0,1]: C09), mAP and mAPH lie in [0,1] *)
+Theorem C04_pipeline_ap_in_unit_interval : forall md p fpv F T ests gts crit pf det Fr cm pm,
+  pipeline_hyps F ests gts crit pf -> weights_in_unit T ->
+  add_frame_result md p fpv F T ests gts crit pf det = Done Fr cm pm ->
+  forall M, In M (cm ++ pm) ->
+    (forall r a, In r (mo_aps M ++ mo_aphs M) -> AP.ap r = Some a -> 0 <= a <= 1) /\
+    (forall x, mo_map M = Some x -> 0 <= x <= 1) /\
+    (forall x, mo_maph M = Some x -> 0 <= x <= 1).
+Proof. exact pipeline_scores_in_unit. Qed.
+Print Assumptions C04_pipeline_ap_in_unit_interval.
+
+(* what [Done] means: the pass/fail side is frame_pipeline, the Maps are those of the surviving results *)
+Theorem C04_pipeline_done_inv : forall md p fpv F T ests gts crit pf det Fr cm pm,
+  add_frame_result md p fpv F T ests gts crit pf det = Done Fr cm pm ->
+  frame_pipeline md p fpv F T ests gts crit pf = Ok Fr /\
+  exists cts, c_targets crit = Some cts /\
+    (cm, pm) = (if fpv then ([], []) else frame_maps F T cts det (f_results Fr) (f_gts Fr)).
+Proof. exact add_frame_result_inv. Qed.
+Print Assumptions C04_pipeline_done_inv.
+
+(* ================================================================================================ *)
+(* C08: FN counts, using C03's bookkeeping                                                           *)
+(* ================================================================================================ *)
+(* [pf_looser pf pf']: same pass/fail targets, every threshold at least as large (plane distance).
+   The looser run exists, sees the same surviving results and critical ground truths, keeps every TP and has
+   no more FNs.  No restriction to ordinary ground truths is needed for the COUNTS: FP-labelled ground truths
+   are never TP nor FN (C03_gt_accounted_once). *)
+Theorem C08_pipeline_fn_antitone : forall md p fpv F T ests gts crit pf pf' Fr,
+  pipeline_hyps F ests gts crit pf -> pf_ok pf' -> pf_looser pf pf' ->
+  frame_pipeline md p fpv F T ests gts crit pf = Ok Fr ->
+  exists Fr', frame_pipeline md p fpv F T ests gts crit pf' = Ok Fr' /\
+    f_results Fr' = f_results Fr /\ f_gts Fr' = f_gts Fr /\
+    (forall r, In r (f_tp Fr) -> In r (f_tp Fr')) /\
+    (List.length (f_tp Fr) <= List.length (f_tp Fr'))%nat /\
+    (List.length (f_fn Fr') <= List.length (f_fn Fr))%nat.
+Proof. exact pipeline_fn_antitone. Qed.
+Print Assumptions C08_pipeline_fn_antitone.
+
+(* ================================================================================================ *)
+(* non-vacuity: one concrete scene (the regression scene `_fixed` of harness/props/pipeline_corr.py, which is
+   run against the real manager on every check; irrational distances rounded to 0.1 m here).
+   Labels: 0 unknown, 1 false_positive, 2 car, 7 pedestrian.  ALLOW_UNKNOWN.  Matchable radius 2.5 m.
+   Critical region |x| < 10, |y| < 5.  Pass/fail: plane distance < 1 for every label (FP label included).
+     e0 car        0.5 m from g0 car          TP
+     e1 car        exactly 1 m from g1 car    on both thresholds: pass/fail FN, AP(1.0) FP
+     e2 UNKNOWN    0.5 m from g2 pedestrian   matched in the label-compatible stage (ALLOW_UNKNOWN): pass/fail TP,
+                                              AP(pedestrian, 0.5): exactly on the threshold -> FP, bucket by the GT label
+     e3 car        2 m from g3 FP-labelled    missed: g3 is TN, e3 re-emitted as a GT-less FP
+     e4 car        0.5 m from g4 FP-labelled  hit: matched FP
+     e5 car        no ground truth left       FP
+     e6 car / g7 car at x = 30                outside the critical region: not counted
+     e7 pedestrian 0.25 m from g8, heading off by pi: plane distance 2.5 -> FN; AP TP with APH weight 0
+     e8 car        9.4 m from g6 FP-labelled  (no radius for the FP label): g6 TN, e8 re-emitted
+     g5 car        unmatched                  FN *)
+(* ================================================================================================ *)
+Open Scope string_scope.
+Definition eo (id lbl : nat) (name : string) (conf x y d : Q) : Obj :=
+  mkObj id lbl name [] conf None true (Some (x, y, d)) None (1000 + id).
+Definition go (id lbl : nat) (name : string) (x y d : Q) (u : string) : Obj :=
+  mkObj id lbl name [] 1 (Some u) true (Some (x, y, d)) (Some 3%Z) id.
+
+Definition ex_ests : list Obj :=
+  [eo 0 2 "car" (1#2) (3#2) 0 (3#2);
+   eo 1 2 "car" (1#2) 5 2 (27#5);
+   eo 2 0 "unknown" (3#4) (-3) (3#2) (17#5);
+   eo 3 2 "car" (1#4) 2 (-4) (9#2);
+   eo 4 2 "car" (5#8) (-13#2) (-4) (38#5);
+   eo 5 2 "car" (1#2) 8 4 (89#10);
+   eo 6 2 "car" (7#8) (61#2) 0 (61#2);
+   eo 7 7 "pedestrian" (3#8) 7 (17#4) (41#5);
+   eo 8 2 "car" (1#8) (-8) 3 (17#2)].
+Definition ex_gts : list Obj :=
+  [go 0 2 "car" 1 0 1 "a";
+   go 1 2 "car" 4 2 (9#2) "b";
+   go 2 7 "pedestrian" (-3) 1 (16#5) "c";
+   go 3 1 "false_positive" 4 (-4) (57#10) "d";
+   go 4 1 "false_positive" (-6) (-4) (36#5) "e";
+   go 5 2 "car" 0 3 3 "a";
+   go 6 1 "false_positive" 0 (-2) 2 "b";
+   go 7 2 "car" 30 0 30 "c";
+   go 8 7 "pedestrian" 7 4 (81#10) "d"].
+(* centre distance estimate x ground truth *)
+Definition ex_value : list (list (option Q)) :=
+  [[Some (1#2); Some (16#5); Some (23#5); Some (47#10); Some (17#2); Some (17#5); Some (5#2); Some (57#2); Some (34#5)];
+   [Some (9#2); Some 1; Some (81#10); Some (61#10); Some (25#2); Some (51#10); Some (32#5); Some (251#10); Some (14#5)];
+   [Some (43#10); Some 7; Some (1#2); Some (89#10); Some (63#10); Some (17#5); Some (23#5); Some 33; Some (103#10)];
+   [Some (41#10); Some (63#10); Some (71#10); Some 2; Some 8; Some (73#10); Some (14#5); Some (283#10); Some (47#5)];
+   [Some (17#2); Some (121#10); Some (61#10); Some (21#2); Some (1#2); Some (48#5); Some (34#5); Some (367#10); Some (157#10)];
+   [Some (81#10); Some (9#2); Some (57#5); Some (89#10); Some (161#10); Some (81#10); Some 10; Some (112#5); Some 1];
+   [Some (59#2); Some (133#5); Some (67#2); Some (134#5); Some (367#10); Some (153#5); Some (153#5); Some (1#2); Some (119#5)];
+   [Some (37#5); Some (15#4); Some (21#2); Some (44#5); Some (77#5); Some (71#10); Some (47#5); Some (117#5); Some (1#4)];
+   [Some (19#2); Some 12; Some (27#5); Some (139#10); Some (73#10); Some 8; Some (47#5); Some (381#10); Some 15]].
+(* plane distance: equal to the centre distance for boxes of equal size and heading; e7 is turned by pi *)
+Definition ex_plane : list (list (option Q)) :=
+  firstn 7 ex_value ++
+  [[Some (42#5); Some 5; Some (49#5); Some 7; Some (29#2); Some (39#5); Some (33#4); Some (45#2); Some (5#2)]] ++
+  skipn 8 ex_value.
+Definition ex_heading : list (list Q) :=
+  map (fun e => map (fun _ => if Nat.eqb e 7 then 0 else 1) (seq 0 9)) (seq 0 9).
+Definition car_like := [true; true; false; false; false; true; false; true; false].
+Definition ped_like := [false; false; true; false; false; false; false; false; true].
+Definition ex_same : list (list bool) :=
+  [car_like; car_like; repeat false 9; car_like; car_like; car_like; car_like; ped_like; car_like].
+Definition ex_F : Facts :=
+  scene_facts [2; 7]%nat (Some [5#2; 5#2]) (repeat O 9) (repeat O 9) ex_value ex_same ex_ests ex_gts.
+Definition ex_T : Tables := mkTables ex_plane ex_heading.
+Definition ex_crit : Cfg := mkCfg (Some [2; 7]%nat) None (Some [10; 10]) (Some [5; 5]) None None None None None.
+Definition ex_pf : PF := mkPF (Some [0; 2; 3; 4; 5; 6; 7; 8; 1]%nat) (Some (repeat 1 9)).
+Definition ex_pf_loose : PF := mkPF (Some [0; 2; 3; 4; 5; 6; 7; 8; 1]%nat) (Some (repeat 3 9)).
+Definition ex_det : Det := mkDet [2; 7]%nat [[1; 1#2]; [2; 2]] [[1; 1]].
+
+(* the hypotheses of every theorem above hold on it *)
+Example Pipeline_nonvacuous_hyps :
+  pipeline_hyps ex_F ex_ests ex_gts ex_crit ex_pf /\ weights_in_unit ex_T /\
+  pf_ok ex_pf_loose /\ pf_looser ex_pf ex_pf_loose.
+Proof.
+  split; [|split; [|split]].
+  - constructor.
+    + apply (scene_ok_hyps ex_F ex_T); vm_compute; reflexivity.
+    + unfold wf_cfg, len_ok, ex_crit; simpl.
+      repeat split; intros l H; try discriminate; inversion H; subst; (exists [2; 7]%nat; repeat split; [discriminate]).
+    + intros ts l H1 H2. inversion H1; inversion H2; subst. reflexivity.
+    + intros g _ _ H. exfalso. apply H. reflexivity.
+  - apply weights_in_unitb_ok. vm_compute. reflexivity.
+  - intros ts l H1 H2. inversion H1; inversion H2; subst. reflexivity.
+  - split; [reflexivity|]. cbn [pf_thresholds ex_pf ex_pf_loose repeat]. repeat constructor; discriminate.
+Qed.
+
+(* the matcher: the unknown estimate e2 is paired with the pedestrian g2 in the label-compatible stage under
+   ALLOW_UNKNOWN; under DEFAULT it is paired only in the second stage, with the FP-labelled g6 *)
+Example Pipeline_nonvacuous_matching :
+  get_object_results CENTERDISTANCE P_ALLOW_UNKNOWN false ex_F =
+    [(7, Some 8); (0, Some 0); (2, Some 2); (4, Some 4); (6, Some 7); (1, Some 1); (3, Some 3); (8, Some 6); (5, None)]%nat /\
+  get_object_results CENTERDISTANCE P_DEFAULT false ex_F =
+    [(7, Some 8); (0, Some 0); (4, Some 4); (6, Some 7); (1, Some 1); (3, Some 3); (2, Some 6); (5, None); (8, None)]%nat.
+Proof. vm_compute. split; reflexivity. Qed.
+
+Definition qred_o (o : option Q) : option Q := option_map Qred o.
+
+(* every status, two labels, buckets by ground-truth label, num_ground_truth, AP / APH / mAP / mAPH *)
+Example Pipeline_nonvacuous_run :
+  match add_frame_result CENTERDISTANCE P_ALLOW_UNKNOWN false ex_F ex_T ex_ests ex_gts ex_crit ex_pf ex_det with
+  | Done fr [m1; m2] [m3] =>
+      map res_pair (f_results fr) =
+        [(7, Some 8); (0, Some 0); (2, Some 2); (4, Some 4); (1, Some 1); (3, Some 3); (8, Some 6); (5, None)]%nat /\
+      ids (f_gts fr) = [0; 1; 2; 3; 4; 5; 6; 8]%nat /\
+      map res_pair (f_tp fr) = [(0, Some 0); (2, Some 2)]%nat /\
+      map res_pair (f_fp fr) = [(7, Some 8); (4, Some 4); (1, Some 1); (3, None); (8, None); (5, None)]%nat /\
+      ids (f_tn fr) = [3; 6]%nat /\ ids (f_fn fr) = [8; 1; 5]%nat /\
+      num_success fr = 4%nat /\ num_fail fr = 9%nat /\
+      (* centre distance, thresholds (car 1.0, pedestrian 0.5) *)
+      mo_nums m1 = [3; 2]%nat /\
+      map AP.tp_list (mo_aps m1) = [[0; 1; 1; 1; 1; 1]; [0; 1]] /\
+      map AP.fp_list (mo_aps m1) = [[0; 0; 1; 2; 2; 2]; [1; 1]] /\
+      map (fun a => qred_o (AP.ap a)) (mo_aps m1) = [Some (1 # 6); Some (1 # 4)] /\
+      map (fun a => qred_o (AP.ap a)) (mo_aphs m1) = [Some (1 # 6); Some 0] /\
+      qred_o (mo_map m1) = Some (5 # 24) /\ qred_o (mo_maph m1) = Some (1 # 12) /\
+      (* centre distance, thresholds (2.0, 2.0) *)
+      map (fun a => qred_o (AP.ap a)) (mo_aps m2) = [Some (4 # 9); Some 1] /\
+      map (fun a => qred_o (AP.ap a)) (mo_aphs m2) = [Some (4 # 9); Some (1 # 2)] /\
+      qred_o (mo_map m2) = Some (13 # 18) /\ qred_o (mo_maph m2) = Some (17 # 36) /\
+      (* plane distance, thresholds (1.0, 1.0) *)
+      map (fun a => qred_o (AP.ap a)) (mo_aps m3) = [Some (1 # 6); Some (1 # 2)] /\
+      qred_o (mo_map m3) = Some (1 # 3)
+  | _ => False
+  end.
+Proof. vm_compute. repeat split. Qed.
+
+(* the counting theorem is tight here: Ap(pedestrian) at 2.0 m counts 2 TPs for 2 critical pedestrians, and a
+   third pedestrian-labelled TP is impossible *)
+Example Pipeline_nonvacuous_count_tight :
+  match frame_pipeline CENTERDISTANCE P_ALLOW_UNKNOWN false ex_F ex_T ex_ests ex_gts ex_crit ex_pf with
+  | Ok fr =>
+      APKinds.count_tp (label_ranking (center_v ex_F) unit_w [2; 7]%nat 7 2 (f_results fr)) = 2%nat /\
+      num_gt_label 7 (f_gts fr) = 2%nat /\
+      APKinds.count_tp (label_ranking (center_v ex_F) unit_w [2; 7]%nat 2 2 (f_results fr)) = 2%nat /\
+      num_gt_label 2 (f_gts fr) = 3%nat
+  | _ => False
+  end.
+Proof. vm_compute. repeat split. Qed.
+
+(* loosening the pass/fail thresholds from 1 m to 3 m: TP {e0, e2} grows to {e7, e0, e2, e1}, FN {g8, g1, g5} shrinks
+   to {g5}; the FP-labelled g3 (2 m) turns from TN into a matched FP, which is why only ordinary ground truths
+   are monotone *)
+Example Pipeline_nonvacuous_loosening :
+  match frame_pipeline CENTERDISTANCE P_ALLOW_UNKNOWN false ex_F ex_T ex_ests ex_gts ex_crit ex_pf_loose with
+  | Ok fr =>
+      map res_pair (f_tp fr) = [(7, Some 8); (0, Some 0); (2, Some 2); (1, Some 1)]%nat /\
+      ids (f_fn fr) = [5]%nat /\ ids (f_tn fr) = [6]%nat
+  | _ => False
+  end.
+Proof. vm_compute. repeat split. Qed.
+
+(* a detection target label without entry in the critical filter: KeyError, reproduced as such *)
+Example Pipeline_nonvacuous_keyerror :
+  add_frame_result CENTERDISTANCE P_ALLOW_UNKNOWN false ex_F ex_T ex_ests ex_gts
+    (mkCfg (Some [2]%nat) None (Some [10]) (Some [5]) None None None None None) ex_pf ex_det = RaisedKey.
+Proof. vm_compute. reflexivity. Qed.
